@@ -1147,6 +1147,36 @@ def check_alignment(prog, rep, m, pubname, entry):
         return False
 
     body = pub.node.body
+    # the alignment re-assigns `.data` of the rasters: arrays captured from them BEFORE it are the unaligned ones
+    early = []
+    for i_, s in enumerate(body):
+        if aligns([s]):
+            cap = {}
+            for s0 in body[:i_]:
+                for x in ast.walk(s0):
+                    if isinstance(x, ast.Assign) and isinstance(x.value, ast.Attribute) and x.value.attr in ('data', 'values') and \
+                            isinstance(x.value.value, ast.Name) and x.value.value.id in (zp, vp):
+                        for t in x.targets:
+                            if isinstance(t, ast.Name):
+                                cap[t.id] = x
+                    elif isinstance(x, ast.Assign) and isinstance(x.targets[0], ast.Tuple) and isinstance(x.value, ast.Tuple):
+                        for t, v in zip(x.targets[0].elts, x.value.elts):
+                            if isinstance(t, ast.Name) and isinstance(v, ast.Attribute) and v.attr in ('data', 'values') and \
+                                    isinstance(v.value, ast.Name) and v.value.id in (zp, vp):
+                                cap[t.id] = x
+            for s1 in body[i_ + 1:]:
+                for x in ast.walk(s1):
+                    if isinstance(x, ast.Call):
+                        for a in list(x.args) + [k.value for k in x.keywords]:
+                            if isinstance(a, ast.Name) and a.id in cap:
+                                early.append((a.id, cap[a.id].lineno, x.lineno))
+            break
+    if early:
+        n += 1
+        rep.add('Z9', pub, entry, 'arrays captured before the alignment: %s' % sorted(set(e_[0] for e_ in early)), early[0][1], False,
+                'chunk alignment re-assigns the rasters\' `.data`: an array read from a raster before validate_arrays and used '
+                'after it is the un-rechunked one, so zones and values blocks are paired positionally without aligned chunks')
+        return n
     if aligns([s for s in body if not isinstance(s, ast.If)]):
         n += 1
         rep.add('Z9', pub, entry, 'validate_arrays(%s, %s) at top level' % (zp, vp), pub.node.lineno, True,
